@@ -176,6 +176,31 @@ theorem T_C18_find_shell_rim (vs : List V3) (s : Sketch) (hs : s ∈ sketches) (
     have hc : s.shellOuterPts.contains k = true := by rw [beq_iff_eq.mp this]; exact hk
     simpa using hc
 
+/-- The shape finder knows no origin: a sketch point is matched by *distance* `< TOL`, with no tolerance relative to the
+    size of the coordinates — moving the shape and the mesh together by any vector `t` (plant or georeferenced
+    coordinates) leaves `find_core` / `find_shell` unchanged. -/
+theorem T_C18_translation_free (vs ps : List V3) (t : V3) :
+    findFromPoints (vs.map (· + t)) (ps.map (· + t)) = findFromPoints vs ps := by
+  have hn : ∀ a b : V3, near (a + t) (b + t) ↔ near a b := by
+    intro a b
+    unfold near dist2 V3.norm2 V3.dot
+    simp only [V3.sub_x, V3.sub_y, V3.sub_z, V3.add_x, V3.add_y, V3.add_z]
+    constructor <;> intro h <;> nlinarith [h]
+  unfold findFromPoints findIdx
+  rw [List.length_map]
+  apply List.filter_congr
+  intro i hi
+  have hi := List.mem_range.mp hi
+  have hg : (vs.map (· + t)).getD i V3.zero = vs.getD i V3.zero + t := by
+    simp [List.getD_eq_getElem?_getD, hi]
+  rw [hg]
+  show ((ps.map (· + t)).any fun p => decide (near (vs.getD i V3.zero + t) p)) =
+    ps.any fun p => decide (near (vs.getD i V3.zero) p)
+  rw [List.any_map]
+  congr 1
+  funext p
+  simp only [Function.comp, hn]
+
 /-- `find_core` never returns a rim vertex and, in a solid disk, misses no other vertex of the end face:
     every sketch point is a core point or a rim point, never both -/
 theorem T_C18_core_rim_partition (s : Sketch) (hs : s ∈ sketches) (k : Nat) (hk : k < s.nPts) :
@@ -482,6 +507,41 @@ theorem T_C18_right_handed (out : List V3)
     rw [tp_congr hsw i hi, tp_relabel_improper _ _ (by decide) i hi]
     have := h (perm [1, 0, 3, 2, 5, 4, 7, 6] i) (perm_lt _ (by decide) i (List.mem_range.mpr hi))
     linarith
+
+/-- The handedness step knows no unit of length: the corner triple product is a volume and is compared with zero,
+    not with the merge tolerance — scaling the sorted points by any `k > 0` (millimetre-sized blocks in metres)
+    scales what is written back by the same `k`. -/
+theorem T_C18_handedness_scale_free (out : List V3) (k : Rat) (hk : 0 < k) :
+    fixHand (out.map (V3.smul k)) = (fixHand out).map (V3.smul k) := by
+  have hz : V3.smul k V3.zero = V3.zero := by apply V3.ext' <;> simp [V3.zero]
+  have hg : ∀ i, (out.map (V3.smul k)).getD i V3.zero = V3.smul k (out.getD i V3.zero) := by
+    intro i
+    simp only [List.getD_eq_getElem?_getD, List.getElem?_map]
+    cases out[i]? <;> simp [hz]
+  have hd : ∀ a b c d : V3, det3 (V3.smul k b - V3.smul k a) (V3.smul k c - V3.smul k a) (V3.smul k d - V3.smul k a)
+      = k * k * k * det3 (b - a) (c - a) (d - a) := by
+    intro a b c d; simp [det3, V3.dot]; ring
+  have hk3 : 0 < k * k * k := mul_pos (mul_pos hk hk) hk
+  unfold fixHand
+  simp only [hg, hd]
+  by_cases h : det3 (out.getD 1 V3.zero - out.getD 0 V3.zero) (out.getD 3 V3.zero - out.getD 0 V3.zero)
+      (out.getD 4 V3.zero - out.getD 0 V3.zero) < 0
+  · have : k * k * k * det3 (out.getD 1 V3.zero - out.getD 0 V3.zero) (out.getD 3 V3.zero - out.getD 0 V3.zero)
+        (out.getD 4 V3.zero - out.getD 0 V3.zero) < 0 := mul_neg_of_pos_of_neg hk3 h
+    simp only [this, h, if_true, swapLR, List.map_map, hg]
+    simp [Function.comp_def]
+  · have : ¬ k * k * k * det3 (out.getD 1 V3.zero - out.getD 0 V3.zero) (out.getD 3 V3.zero - out.getD 0 V3.zero)
+        (out.getD 4 V3.zero - out.getD 0 V3.zero) < 0 := by
+      intro hc
+      have := (mul_neg_iff.mp hc)
+      rcases this with ⟨_, h2⟩ | ⟨h1, _⟩
+      · exact h h2
+      · linarith
+    simp only [this, h, if_false]
+
+/-- a right-handed block of 4 × 3 × 2 mm (volume 2.4e-8, below the merge tolerance 1e-7) keeps its numbering -/
+example : fixHand (cubePts.map (fun p => ⟨p.x * (4 / 1000), p.y * (3 / 1000), p.z * (2 / 1000)⟩))
+    = cubePts.map (fun p => ⟨p.x * (4 / 1000), p.y * (3 / 1000), p.z * (2 / 1000)⟩) := by decide +kernel
 
 /-- a left-handed unit cube is turned into a right-handed one -/
 example : (List.range 8).all (fun i => decide (0 < tp (Hex.ofList (fixHand
